@@ -21,19 +21,39 @@ func constructMap(d *drv) {
 	case "HashMap":
 		bindHashMap(d, hashmap.New[int, int]())
 	case "TreeMap":
-		bindTreeMap(d, treemap.NewWith[int, int](d.kf))
+		if d.natural {
+			bindTreeMap(d, treemap.New[int, int]())
+		} else {
+			bindTreeMap(d, treemap.NewWith[int, int](d.kf))
+		}
 	case "LinkedHashMap":
 		bindLinkedHashMap(d, linkedhashmap.New[int, int]())
 	case "HashBidiMap":
 		bindHashBidiMap(d, hashbidimap.New[int, int]())
 	case "TreeBidiMap":
-		bindTreeBidiMap(d, treebidimap.NewWith[int, int](d.kf, d.vf))
+		if d.natural {
+			bindTreeBidiMap(d, treebidimap.New[int, int]())
+		} else {
+			bindTreeBidiMap(d, treebidimap.NewWith[int, int](d.kf, d.vf))
+		}
 	case "RedBlackTree":
-		bindRBTree(d, rbt.NewWith[int, int](d.kf))
+		if d.natural {
+			bindRBTree(d, rbt.New[int, int]())
+		} else {
+			bindRBTree(d, rbt.NewWith[int, int](d.kf))
+		}
 	case "AVLTree":
-		bindAVLTree(d, avltree.NewWith[int, int](d.kf))
+		if d.natural {
+			bindAVLTree(d, avltree.New[int, int]())
+		} else {
+			bindAVLTree(d, avltree.NewWith[int, int](d.kf))
+		}
 	case "BTree":
-		bindBTree(d, btree.NewWith[int, int](d.cfg.Order, d.kf))
+		if d.natural {
+			bindBTree(d, btree.New[int, int](d.cfg.Order))
+		} else {
+			bindBTree(d, btree.NewWith[int, int](d.cfg.Order, d.kf))
+		}
 	}
 }
 
@@ -234,7 +254,7 @@ func bindRBTree(d *drv, t *rbt.Tree[int, int]) {
 	d.ceiling = func(k int) (int, int, bool) { return node(t.Ceiling(k)) }
 	d.shape = func() string { return rbTreeShape(t) }
 	d.hasCost, d.hasX = true, true
-	d.links = func() bool { return rbTreeLinks(t) }
+	d.links = func() bool { return rbTreeLinks(t) && rbNodeAPI(t, d.probes()) }
 	d.fingerprint = func() string { return fmt.Sprintf("RB%s size=%d", rbTreeShape(t), t.Size()) }
 }
 
@@ -254,7 +274,7 @@ func bindAVLTree(d *drv, t *avltree.Tree[int, int]) {
 	d.ceiling = func(k int) (int, int, bool) { return node(t.Ceiling(k)) }
 	d.shape = func() string { return avlShape(t.Root) }
 	d.hasCost, d.hasX = true, true
-	d.links = func() bool { return avlLinks(t.Root, t.Size()) }
+	d.links = func() bool { return avlLinks(t.Root, t.Size()) && avlNodeAPI(t, d.probes()) }
 	d.fingerprint = func() string { return fmt.Sprintf("AVL%s size=%d", avlShape(t.Root), t.Size()) }
 }
 
@@ -274,6 +294,8 @@ func bindBTree(d *drv, t *btree.Tree[int, int]) {
 	d.shape = func() string { return btShape(t.Root) }
 	d.height = t.Height
 	d.hasCost, d.hasX = true, true
-	d.links = func() bool { return btLinks(t.Root, t.Size()) && t.VerifOrder() == d.cfg.Order }
+	d.links = func() bool {
+		return btLinks(t.Root, t.Size()) && t.VerifOrder() == d.cfg.Order && btNodeAPI(t, d.probes())
+	}
 	d.fingerprint = func() string { return fmt.Sprintf("BT%s size=%d m=%d", btShape(t.Root), t.Size(), t.VerifOrder()) }
 }
